@@ -1,16 +1,34 @@
-"""Which theorem cone, which correspondence streams (and which of their components) and how many cases decide each property."""
+"""Which theorem cone, which correspondence streams (and which of their components) and how many cases decide each property.
+MANIFEST.json is generated from this file by harness/mk_manifest.py so that the two cannot drift apart."""
 DRIVERS = ["driver", "pdriver", "rdriver"]
+
 
 def S(name, quick, thorough, components=None, parallel=8):
     return {"name": name, "n": {"quick": quick, "thorough": thorough}, "components": components, "parallel": parallel}
 
+
 ENGINE_RULE = ("engine stream: generated single-asset histories (2-14 rows, instants from a small pool so that ties are frequent, income events interleaved "
                "with disposals, partial lots, equal prices, 1-3-entry method schedules, 3% over-spending); non-trivial = succeeds with >= 2 fractions "
                "from >= 2 distinct lots; distinct by content hash")
+PIPE_RULE = ("pipeline stream: generated single-asset histories (2-14 rows, 4 accounts, sheet order != time order, 11-decimal amounts 1e-11..1e4, prices to 1e7, "
+             "optional exchange-supplied fiat columns, 1-3-entry schedules, random from/to windows on/around transaction dates, -n on/off, a share of mixed UTC offsets, "
+             "4% over-spending); every figure compared with the Lean model as an exact rational; non-trivial = succeeds with >= 2 fractions; distinct by content hash")
 
 PROPS = {
     "C01": {"streams": [S("engine", 2000, 160000, ["fractions"])], "rule": ENGINE_RULE,
-            "assumptions": ["hypothesis SameInstantSameYear (finding F7): events at one instant share a local year"]},
-    "C02": {"streams": [S("engine", 2000, 160000, ["fractions"])], "rule": ENGINE_RULE, "assumptions": []},
-    "C03": {"streams": [S("engine", 1500, 80000, ["fractions", "types"])], "rule": ENGINE_RULE, "assumptions": []},
+            "assumptions": ["hypothesis SameInstantSameYear (finding F7): events at one instant share a local year"],
+            "technique": "Lean 4 refinement proof (engine with heaps/cache/indices = greedy spec) + regenerated sort-key table + differential correspondence",
+            "text": "Theorem engine_eq_spec / best_lot: for all histories, methods and schedules the engine model takes every piece from the best-ranked available lot; "
+                    "tie to the code by Gen.Methods (decide) and the engine stream (compute_tax vs compiled model, fraction by fraction).",
+            "design_ref": "DESIGN.md §3 C01"},
+    "C02": {"streams": [S("engine", 2000, 160000, ["fractions"])], "rule": ENGINE_RULE, "assumptions": [],
+            "technique": "Lean 4 proof: cover / no-overspend / not-from-the-future on the engine model, closed-form failure criterion (Feasible) on the spec",
+            "text": "Theorems cover_and_no_overspend and succeeds_iff_feasible hold for every history and method; correspondence on the engine stream incl. the exhausted status.",
+            "design_ref": "DESIGN.md §3 C02"},
+    "C03": {"streams": [S("engine", 1500, 80000, ["fractions", "types"])], "rule": ENGINE_RULE, "assumptions": [],
+            "technique": "Lean 4 proof: taxable events are a permutation of earn-IN + OUT + fee-INTRA; each event once and in full; regenerated type table",
+            "text": "Theorems events_exact / events_perm / each_once_in_full; tie by Gen.Types and the engine + pipeline streams.",
+            "design_ref": "DESIGN.md §3 C03"},
 }
+
+PENDING = {}
